@@ -243,6 +243,14 @@ def install(it):
         return (it.binop(ast.FloorDiv, a[0], a[1]),
                 it.binop(ast.Mod, a[0], a[1]))
 
+    @builtin('pow')
+    def _pow(it, a, kw):
+        if len(a) == 2:
+            return it.binop(ast.Pow, a[0], a[1])
+        if not any(is_symbolic(x) for x in a):
+            return it.host_call(pow, *a)
+        raise Unsupported('3-argument pow of symbolic')
+
     @builtin('round')
     def _round(it, a, kw):
         if not any(is_symbolic(x) for x in a):
@@ -566,6 +574,25 @@ def getattr_value(it, o, name):
             it.builtins['next'], [o], {}))
     if isinstance(o, HostNamespace):
         return o.get(it, name)
+    from .stdlib import PatternVal, HostValue, pattern_method, wrap_host
+    if isinstance(o, PatternVal):
+        if name == 'pattern':
+            return o.pattern
+        if name == 'flags':
+            import re as _re
+            return o.flags | int(_re.UNICODE)
+        return I.Builtin('Pattern.' + name, lambda it_, a, kw:
+                         pattern_method(it_, o, name, a, kw))
+    if isinstance(o, HostValue):
+        attr = it.host_call(getattr, o.obj, name)
+        if callable(attr):
+            def call(it_, a, kw):
+                if _has_sym(a):
+                    raise Unsupported('host method %s with symbolic '
+                                      'arguments' % name)
+                return wrap_host(it_.host_call(attr, *a, **kw))
+            return I.Builtin('host.' + name, call)
+        return wrap_host(attr)
     raise Unsupported('attribute %s of %r' % (name, o))
 
 
